@@ -232,6 +232,30 @@ def run(ctx):
                     drain_ok = bool(snd) and eqz
                 elif exits and v not in ("_%s" % idx_term,):
                     exit_break = True
+            # `the process exits once all clients have left`: that nobody is left is decided in the drain arm alone, on a count that has taken in every ping queued
+            # before - the SIGINT arm asks by queueing a ping of its own (0) behind them. Reading the counter in the SIGINT arm sees only the pings the loop has
+            # already received: a client whose +1 is still queued is cut off in mid-transaction
+            def chan_of(op):
+                return {o.call.block for o in origins(m, op, taint=True) if o.kind == "call" and o.call.name.endswith("mpsc::bounded::channel")}
+            tc_ = m.locals_named("total_clients")
+            drain_arm = [v for v in arms if v.startswith("_") and tc_ and any(d_[1] in arm_region(v) for d_ in m.defs().get(tc_[0], []))]
+            if idx_int is not None and "_%d" % idx_int in arms and drain_arm:
+                dreg = arm_region(drain_arm[0])
+                # the exit channel: the one the drain arm signals when the count reaches 0 (select!'s output enum merges the receivers, the senders stay apart)
+                exch = set()
+                for c in m.calls("re:^tokio::sync::mpsc::bounded::Sender::(send|try_send)$"):
+                    if c.block in dreg:
+                        exch |= chan_of(c.args[0])
+                dch = exch
+                ireg = arm_region("_%d" % idx_int)
+                isend = [c for c in m.calls("re:^tokio::sync::mpsc::bounded::Sender::(send|try_send)$") if c.block in ireg]
+                ping = [c for c in isend if chan_of(c.args[0]) and not (chan_of(c.args[0]) & exch) and const_int(c.args[1]) == 0]
+                stray = [c for c in isend if chan_of(c.args[0]) & exch]
+                r4.check(bool(dch) and bool(ping), "sigint:asks-through-the-drain-channel", "the SIGINT arm queues a ping (0) into the drain channel, behind the pings already queued",
+                         "the SIGINT arm does not queue a ping into the drain channel: with nobody connected the loop is never asked and waits for shutdown_timeout")
+                r4.check(bool(dch) and not stray, "sigint:decides-nothing-itself", "the SIGINT arm signals no exit on its own reading of the counter",
+                         "the SIGINT arm signals the exit channel itself (%s), on a counter that lags behind the pings still queued: a client that has just logged in and started a transaction - its +1 not yet taken in - is cut off, "
+                         "COMMIT never reaches the server" % [c.where() for c in stray][:1])
             r4.check(exit_break, "exit-channel:break", "the exit channel arm leaves the loop", "no arm leaves the loop on the exit channel")
             r4.check(drain_ok, "drain:last-client", "the drain arm signals exit when the client count reaches 0", "the drain arm no longer signals exit at total_clients == 0")
     sd = ctx.body("pgcat::admin::shutdown::{closure#0}", r4)
